@@ -51,6 +51,7 @@ type Contract struct {
 	Requires []*Clause
 	Ensures  []*Clause
 	Defines  []*Clause // definitional postconditions: introduce an uninterpreted predicate as "this deterministic function accepts"; assumed at call sites, not checked
+	ClosureAccepts map[int]*Clause // "closure N accepts P": whenever the N-th function literal returns a nil error, P holds of its arguments
 	PreCalls []*PreCall // call-site obligations: every call of a matching callee is made only when the condition holds (dominance)
 	EnsuresLocal []*Clause // postconditions that may mention top-level local variables (their value at the return)
 	Assumes  []*Clause
@@ -102,7 +103,7 @@ type Lemma struct {
 var clauseKeywords = map[string]bool{
 	"func": true, "props": true, "safety": true, "requires": true, "ensures": true,
 	"modifies": true, "loop": true, "trusted": true, "pure": true, "opaque": true, "ghost": true,
-	"global": true, "lemma": true, "assumes": true, "import": true, "note": true, "cases": true, "end": true, "trustframe": true, "ensures-local": true, "defines": true, "precall": true,
+	"global": true, "lemma": true, "assumes": true, "import": true, "note": true, "cases": true, "end": true, "trustframe": true, "ensures-local": true, "defines": true, "precall": true, "closure": true,
 }
 
 var funcKeyRe = regexp.MustCompile(`^(?:\(\s*\*?\s*(\w+)\s*\)\s*\.\s*(\w+)|(\w+)\s*\.\s*(\w+)|(\w+))`)
@@ -253,6 +254,21 @@ func parseSpecFile(path, relDir string) (*PkgSpec, error) {
 				c := mk("ensures", it.text, it.line, len(cur.Defines))
 				c.Label = fmt.Sprintf("defines%d", len(cur.Defines))
 				cur.Defines = append(cur.Defines, c)
+			case "closure":
+				f := strings.Fields(it.text)
+				if len(f) < 3 || f[1] != "accepts" {
+					return nil, fmt.Errorf("%s:%d: closure clause must be `closure N accepts <condition>`", path, it.line)
+				}
+				n, err := strconv.Atoi(f[0])
+				if err != nil || n < 1 {
+					return nil, fmt.Errorf("%s:%d: bad closure ordinal %q", path, it.line, f[0])
+				}
+				c := mk("ensures", strings.TrimSpace(strings.SplitN(it.text, "accepts", 2)[1]), it.line, n)
+				c.Label = fmt.Sprintf("closure%d.accepts", n)
+				if cur.ClosureAccepts == nil {
+					cur.ClosureAccepts = map[int]*Clause{}
+				}
+				cur.ClosureAccepts[n] = c
 			case "precall":
 				parts := strings.SplitN(it.text, "::", 2)
 				if len(parts) != 2 {
@@ -491,7 +507,7 @@ var builtinRename = map[string]string{
 	"mapLen": "gh_mapLen", "allocated": "gh_allocated", "pureOf": "gh_pureOf",
 	"uf": "gh_uf", "ufb": "gh_ufb", "ufr": "gh_ufr", "seqOf": "gh_seqOf", "wrote": "gh_wrote", "div": "gh_div", "mod": "gh_mod",
 	"sameElems": "gh_sameElems", "abs": "gh_abs", "min": "gh_min", "max": "gh_max",
-	"count": "gh_count", "sum": "gh_sum", "upd": "gh_upd", "hdr": "gh_hdr", "kvDomain": "gh_kvDomain", "kvState": "gh_kvState", "kvHas": "gh_kvHas", "kvVal": "gh_kvVal", "kvWrites": "gh_kvWrites", "bytesId": "gh_bytesId", "keyOf": "gh_keyOf", "sameRef": "gh_sameRef", "defined": "gh_defined", "arrOf": "gh_arrOf", "anyOf": "gh_anyOf", "unavail": "gh_unavail", "errIs": "gh_errIs", "mapEq": "gh_mapEq", "emptyMap": "gh_emptyMap",
+	"count": "gh_count", "sum": "gh_sum", "upd": "gh_upd", "hdr": "gh_hdr", "kvDomain": "gh_kvDomain", "kvState": "gh_kvState", "kvHas": "gh_kvHas", "kvVal": "gh_kvVal", "kvWrites": "gh_kvWrites", "bytesId": "gh_bytesId", "keyOf": "gh_keyOf", "sameRef": "gh_sameRef", "defined": "gh_defined", "argIs": "gh_argIs", "arrOf": "gh_arrOf", "anyOf": "gh_anyOf", "unavail": "gh_unavail", "errIs": "gh_errIs", "mapEq": "gh_mapEq", "emptyMap": "gh_emptyMap",
 }
 
 var identCallRe = regexp.MustCompile(`\b([A-Za-z_]\w*)\s*\(`)
@@ -576,6 +592,7 @@ func gh_bytesId(b []byte) int             { return 0 }
 func gh_keyOf(kf any, args ...any) int    { return 0 }
 func gh_sameRef(a, b any) bool            { return false }
 func gh_defined(a any) bool            { return false }
+func gh_argIs(i int, a any) bool            { return false }
 func gh_arrOf[T any](x []T) *T            { return nil }
 func gh_anyOf[T any](x T) T              { return x }
 func gh_count(lo, hi int, f func(int) bool) int { return 0 }
